@@ -872,6 +872,7 @@ package template
 //@   requires actionnodes: ACTIONNODES()
 //@   ensures fixpoint: r.state != stateError ==> namedlike(true, "etbok", c, c, t) || namedlike(true, "etbok", c, namedlike(c, "etb", c, c, t), t)
 //@   ensures first: namedlike(true, "etbok", c, c, t) ==> identical(r, namedlike(c, "etb", c, c, t))
+//@   ensures errorfinal: namedlike(c, "etb", c, c, t).state == stateError ==> identical(r, namedlike(c, "etb", c, c, t))
 //@   ensures second: !namedlike(true, "etbok", c, c, t) && r.state != stateError ==> identical(r, namedlike(c, "etb", c, namedlike(c, "etb", c, c, t), t))
 //@   ensures memo: r.state != stateError ==> haskeym(e.output, ttname(t)) && identical(e.output[ttname(t)], r)
 //@   ensures treesfresh: onlyfresh("TT_Template.Tree parse_Tree.Name#b parse_Tree.Name#o parse_Tree.Name#l")
